@@ -18,9 +18,9 @@
 #include <optional>
 
 enum ObjOp { OP_CONSTRUCT = 0, OP_SET, OP_SOLVE, OP_COPY_CTOR, OP_COPY_ASSIGN, OP_MOVE_CTOR, OP_MOVE_ASSIGN, OP_DESTROY,
-             OP_SELF_ASSIGN, OP_DEFAULT_CTOR, OP_SWAP, OP_CHAIN_ASSIGN, OP_COUNT };
+             OP_SELF_ASSIGN, OP_DEFAULT_CTOR, OP_SWAP, OP_CHAIN_ASSIGN, OP_PARALLEL_COPY, OP_COUNT };
 static const char* kOpNames[] = {"construct", "set", "solve", "copy_ctor", "copy_assign", "move_ctor",
-                                 "move_assign", "destroy", "self_assign", "default_ctor", "swap", "chain_assign"};
+                                 "move_assign", "destroy", "self_assign", "default_ctor", "swap", "chain_assign", "parallel_copy"};
 
 static inline bool sameBits(double a, double b)
 {
@@ -645,6 +645,40 @@ Outcome runMachine(const std::vector<int>& cmds, const std::string& kindName)
                 applied                       = true;
             }
             break;
+        case OP_PARALLEL_COPY:
+            // every thread of an active parallel region takes its own copy of one shared object (firstprivate-style copy
+            // construction, and copy assignment onto a thread-local object of another size): each copy equals the source
+            if (alive[a] && !moved[a] && !dflt[a]) {
+                std::string firstWhy;
+                int nbad = 0;
+                const typename T::Obj& src = *obj[a];
+                const typename T::Model& m = mod[a];
+                const typename T::Model other = T::gen(std::abs(arg) + 3, (uint64_t)std::abs(arg) * 977u + 5);
+#pragma omp parallel num_threads(3) reduction(+ : nbad)
+                {
+                    std::string why;
+                    typename T::Obj mine(src);
+                    bool ok = T::check(mine, m, why);
+                    std::unique_ptr<typename T::Obj> local = T::construct(other);
+                    *local = src;
+                    ok = ok && T::check(*local, m, why);
+                    if (!ok) {
+                        nbad++;
+#pragma omp critical
+                        if (firstWhy.empty())
+                            firstWhy = why;
+                    }
+                }
+                if (nbad) {
+                    o.fail("model_mismatch", kindName + ": after step " + std::to_string(k) + " (parallel_copy) slot " + std::to_string(a) + ": " +
+                                                 std::to_string(nbad) + " of 3 threads got a copy that differs from the source: " + firstWhy);
+                    return o;
+                }
+                applied = true;
+                if (m.solved || !T::isSolver)
+                    copyAfterState = true;
+            }
+            break;
         case OP_SWAP:
             // std::swap: one move construction and two move assignments
             if (alive[a] && !moved[a] && alive[b] && !moved[b] && a != b) {
@@ -751,7 +785,8 @@ inline KV genObjectsCase()
                                                                                                  {1, OP_SELF_ASSIGN},
                                                                                                  {1, OP_DEFAULT_CTOR},
                                                                                                  {2, OP_SWAP},
-                                                                                                 {1, OP_CHAIN_ASSIGN}})),
+                                                                                                 {1, OP_CHAIN_ASSIGN},
+                                                                                                 {1, OP_PARALLEL_COPY}})),
                                  rc::gen::resize(rc::kNominalSize, rc::gen::inRange(0, 4)),
                                  rc::gen::resize(rc::kNominalSize, rc::gen::inRange(0, 4)),
                                  rc::gen::resize(rc::kNominalSize, rc::gen::inRange(0, 1000)));
